@@ -54,6 +54,10 @@ type Config struct {
 	Prefix        string   // prefix for unique names
 	NoGlobalWrite bool
 	StringCalls   bool // f"str", f{...}
+	// NoFuncInForBounds: no function expression inside the bounds of a numeric for / explist of a generic for
+	NoFuncInForBounds bool
+	// NoFuncInTargetIndex: no function expression inside the index expression of an assignment target
+	NoFuncInTargetIndex bool
 	// NoSameNameInit: never read a name inside the initialiser of a local statement (or for bounds)
 	// that declares the same name
 	NoSameNameInit bool
@@ -89,6 +93,7 @@ type Gen struct {
 	labelNo int
 	// suppressBreak: the next block must not end in `break` (a label follows it)
 	suppressBreak bool
+	noFunc        int
 	// banned names for reads (while generating an initialiser of a same-named local)
 	banned map[string]bool
 }
@@ -330,12 +335,18 @@ func (g *Gen) statement(depth int) {
 		if g.cfg.NoSameNameInit {
 			g.banned[name] = true
 		}
+		if g.cfg.NoFuncInForBounds {
+			g.noFunc++
+		}
 		g.exp(1)
 		g.emit(",")
 		g.exp(1)
 		if g.intn(3, "step") == 0 {
 			g.emit(",")
 			g.exp(1)
+		}
+		if g.cfg.NoFuncInForBounds {
+			g.noFunc--
 		}
 		delete(g.banned, name)
 		g.emit("do")
@@ -369,7 +380,13 @@ func (g *Gen) statement(depth int) {
 		g.emit("pairs")
 		g.Toks[len(g.Toks)-1].Var = g.bindOf("pairs")
 		g.emit("(")
+		if g.cfg.NoFuncInForBounds {
+			g.noFunc++
+		}
 		g.exp(1)
+		if g.cfg.NoFuncInForBounds {
+			g.noFunc--
+		}
 		g.emit(")")
 		for _, nm := range names {
 			delete(g.banned, nm)
@@ -542,7 +559,13 @@ func (g *Gen) assignTarget() {
 			g.emit(fieldPool[g.intn(len(fieldPool), "fld")])
 		} else {
 			g.emit("[")
+			if g.cfg.NoFuncInTargetIndex {
+				g.noFunc++
+			}
 			g.exp(1)
+			if g.cfg.NoFuncInTargetIndex {
+				g.noFunc--
+			}
 			g.emit("]")
 		}
 	}
@@ -555,18 +578,29 @@ func (g *Gen) assignStat() {
 	if g.intn(5, "asgMulti") == 0 {
 		n = 2
 	}
+	var tnames []string
 	for i := 0; i < n; i++ {
 		if i > 0 {
 			g.emit(",")
 		}
+		before := len(g.Toks)
 		g.assignTarget()
+		if g.cfg.NoSameNameInit && len(g.Toks) == before+1 && g.Toks[before].Write {
+			tnames = append(tnames, g.Toks[before].Text)
+		}
 	}
 	g.emit("=")
+	for _, nm := range tnames {
+		g.banned[nm] = true
+	}
 	for i := 0; i < n; i++ {
 		if i > 0 {
 			g.emit(",")
 		}
 		g.exp(g.cfg.ExpDepth)
+	}
+	for _, nm := range tnames {
+		delete(g.banned, nm)
 	}
 }
 
@@ -637,7 +671,11 @@ func (g *Gen) funcStat(depth int) {
 			}
 		}
 		g.emitVar(name, true)
+		if g.cfg.NoSameNameInit {
+			g.banned[name] = true
+		}
 		g.funcBody(depth, -1)
+		delete(g.banned, name)
 	case 1, 2:
 		g.emitVar(g.pickReadable("fbase"), false)
 		g.emit(".")
@@ -767,6 +805,9 @@ func (g *Gen) exp(d int) {
 	k := g.intn(14, "exp")
 	if d <= 0 && k >= 7 {
 		k = g.intn(7, "expLeaf")
+	}
+	if g.noFunc > 0 && k == 12 {
+		k = 1
 	}
 	switch k {
 	case 0:
